@@ -61,6 +61,17 @@ Definition machine_step_refines_stmt : Prop := keq_ok keq hash -> ord_ok ple ->
       qinv keq ple k true s' /\
       spec_step keq ple k (al (smap s)) o out (al (smap s')).
 
+(** the output column of the trace the extracted machine prints for a history
+    of core calls on one register is a run of the specification *)
+Definition machine_run_refines_stmt : Prop := keq_ok keq hash -> ord_ok ple ->
+  forall ops (m : machine) r k s,
+    getreg m r = Some (k, s) -> qinv keq ple k true s ->
+    exists outs s',
+      map (fun t : out * nat * machine => t.1.1)
+          (run keq hash ple peq alloc_limit m (map (op_of k r) ops)) = map out_of outs /\
+      length outs = length ops /\
+      spec_run keq ple k (al (smap s)) ops outs (al (smap s')).
+
 Lemma getreg_reset_ (m : machine) r :
   getreg (reset_ticks m) r =
     (fun ks : kind * store => (ks.1, set_ticks ks.2 0)) <$> getreg m r.
@@ -122,6 +133,32 @@ Proof.
   destruct (refine_step_closed keq hash ple Hk Ho k (set_ticks s 0) o Hq0) as (out & s' & Hstep & Hq' & Hspec).
   exists out, s'. split_and!; [|done|done].
   by eapply machine_step_is_q_step_thm.
+Qed.
+
+Lemma getreg_setreg_reset (m : machine) r k x s1 :
+  getreg m r = Some x -> getreg (setreg (reset_ticks m) r k s1) r = Some (k, s1).
+Proof.
+  unfold getreg, setreg. intros H.
+  assert (r < length (reset_ticks m)) as Hlt.
+  { unfold reset_ticks. rewrite fmap_length. apply lookup_lt_is_Some.
+    destruct (m !! r) as [y|] eqn:Hr; [by eexists|done]. }
+  unfold Machine.machine in *. rewrite list_lookup_insert; [done|exact Hlt].
+Qed.
+
+Theorem machine_run_refines_thm : machine_run_refines_stmt.
+Proof.
+  intros Hk Ho ops. induction ops as [|o ops IH]; intros m r k s Hreg Hq.
+  - exists [], s. split_and!; [done|done|constructor].
+  - destruct (machine_step_refines_thm Hk Ho m r k s o Hreg Hq) as (out & s1 & Hstep & Hq1 & Hspec).
+    set (m1 := setreg (reset_ticks m) r k s1) in *.
+    assert (Hreg1 : getreg m1 r = Some (k, s1)) by (by eapply getreg_setreg_reset).
+    destruct (IH m1 r k s1 Hreg1 Hq1) as (outs & s' & Htr & Hlen & Hrun).
+    exists (out :: outs), s'. split_and!.
+    + cbn [map run]. rewrite Hstep.
+      assert (is_fault (out_of out) = false) as -> by (by destruct out).
+      cbn [map fst]. by rewrite Htr.
+    + cbn [length]. by rewrite Hlen.
+    + econstructor; eauto.
 Qed.
 
 End RefineMachine.
